@@ -301,6 +301,20 @@ fn run_corpus(job: &Value) {
         xs.extend(["1.2.3", "1..2", ".5.5", "1.", ".", "2pi", "1e5", "2i3", "i2", "π²", "3!!", "-2^2", "2^3!", "6/2(3)", "1 + 2\u{2003}* 3", "⌊2.5⌋⌈2.5⌉", "1<<63", "1<<64", "5%0", "1/0", "avg()", "min()", "max(1,2,)", "sgn(0)", "w(1)", "ilog(100,2)", "gcd(12,18)", "@@", "(@)", "@(2)"].iter().map(|s| s.to_string()));
         for x in xs { let _ = writeln!(w, "{}\t{}", e, x); n += 1; }
     }
+    // integer-valued functions at arguments where a double detour and an exact computation part ways: just below, at and above
+    // perfect squares / cubes beyond 2^52 (a feature subset may select another implementation)
+    {
+        let mut rng = Rng(0x5EEDC17);
+        let mut ns: Vec<u64> = vec![4611686018427387903, 4503599761588224, 9223372036854775807, 4611686014132420609, 4611686018427387904, 9223372030926249001, 9223372037000250000];
+        for _ in 0..40 { let r = 67108865 + rng.below(2969000000) as u64; ns.push(r * r - 1); ns.push(r * r); ns.push(r * r + 1); }
+        for e in ["i64", "num", "f64", "dec"] {
+            for nv in &ns {
+                if *nv > i64::MAX as u64 { continue; }
+                let _ = writeln!(w, "{}\tsqrt({})", e, nv); n += 1;
+                if e != "dec" { let _ = writeln!(w, "{}\troot(2,{})", e, nv); let _ = writeln!(w, "{}\tlb({})", e, nv); n += 2; }
+            }
+        }
+    }
     // a syntax error next to a symbol that only some evaluators know (whichever is met first decides the error that is returned:
     // that, too, must not depend on which other evaluators are compiled in)
     for e in ["f64", "i64", "dec", "cpx", "num"] {
